@@ -129,6 +129,14 @@ func (c *Ctx) Nontrivial(key string) {
 	c.mu.Unlock()
 }
 
+// NontrivialCounted adds n cases that are distinct by construction (an
+// enumeration never visits a case twice), without storing their hashes.
+func (c *Ctx) NontrivialCounted(n int) {
+	c.mu.Lock()
+	c.counters["distinct_by_enumeration"] += int64(n)
+	c.mu.Unlock()
+}
+
 func (c *Ctx) Sample(v any) {
 	c.mu.Lock()
 	if len(c.samples) < c.maxSamples {
